@@ -319,31 +319,42 @@ prop("C15", level="fault_enumeration",
 
 prop("C16", level="exploration",
      stages=[dict(pkg="mq", test="TestQueue", sub="queue", race=True, vary_gomaxprocs=True,
-                  cases=dict(quick=1000, thorough=20000), timeout=3600)],
+                  cases=dict(quick=1000, thorough=20000), timeout=3600),
+             # scripted histories: a send held inside SendMsg with messages queued behind it, then all retries fail
+             # (scrub of pending messages) or the peer's last connection goes away (shutdown drain)
+             dict(pkg="mq", test="TestQueueScripted", sub="scripted", race=True, vary_gomaxprocs=True,
+                  cases=dict(quick=400, thorough=8000), timeout=3600)],
      technique="runtime monitoring: exactly-once checker over Subscriber events - every build carries a unique id in the message's block-data metadata and must be covered by exactly one Sent/Error event delivered to its request's subscriber - under concurrent producers, injected send/connect failures, retry exhaustion, connection flaps and a widened queue-shutdown window; Go race detector",
      level_text=("2-6 producer goroutines build messages for 1-3 peers through the real peermanager/messagequeue while the script injects send failures, "
                  "retry exhaustion, connect / sender failures and Connected/Disconnected flaps; a third of the runs pin a delay between a queue's "
                  "decision to shut down and its shutdown callback. At quiescence every build id must appear in exactly one terminal event of its "
-                 "request's subscriber; zero is accepted only under the documented scrub rule (an Error for the same request was delivered after the build began)."),
+                 "request's subscriber; zero is accepted only under the documented scrub rule (an Error for the same request was delivered after the build began). "
+                 "Stage scripted: one message is held inside SendMsg, 3-7 messages (distinct or shared requests, own or shared wire messages) are queued behind it, then either every retry fails, "
+                 "or the peer's last connection goes away and the held send then succeeds or fails; same exactly-once oracle."),
      level_note="Builds that land in a queue which has already begun shutting down are a recorded known finding.",
      rule=("One evaluation = one concurrent scenario (10-50 builds). Non-trivial = executed to quiescence and every build decided; distinct by scenario. "
            "counters.builds_started_inside_a_queue_shutdown_window = builds that began while a queue of that peer was between Shutdown() and exit."),
-     min_nontrivial=dict(quick=400, thorough=8000),
-     min_counters=dict(builds_started_inside_a_queue_shutdown_window=dict(quick=5, thorough=100), error_events=dict(quick=50, thorough=1000)),
+     min_nontrivial=dict(quick=800, thorough=16000),
+     min_counters=dict(builds_started_inside_a_queue_shutdown_window=dict(quick=5, thorough=100), error_events=dict(quick=50, thorough=1000), scripted_histories=dict(quick=300, thorough=6000)),
      assumptions=_mq_assume)
 
 prop("C17", level="exploration",
      stages=[dict(pkg="mq", test="TestQueue", sub="queue", race=True, vary_gomaxprocs=True,
-                  cases=dict(quick=1000, thorough=20000), timeout=3600)],
+                  cases=dict(quick=1000, thorough=20000), timeout=3600),
+             # scripted histories: a send held inside SendMsg with messages queued behind it, then all retries fail
+             # (scrub of pending messages) or the peer's last connection goes away (shutdown drain)
+             dict(pkg="mq", test="TestQueueScripted", sub="scripted", race=True, vary_gomaxprocs=True,
+                  cases=dict(quick=400, thorough=8000), timeout=3600)],
      technique="runtime monitoring: queue liveness from wrapped factory events (created / Startup / Shutdown / shutdown callback) checked at quiescent points against the peer table, plus a happens-before FIFO checker over unique build ids in the wire log; Go race detector",
      level_text=("Same executions as C16, different monitor: at the final quiescent point each peer has at most one started-and-not-exited queue, it is the "
                  "one in the peer table, no queue is still live after Shutdown(), and no queue outlives the peer's last disconnect when nothing was queued "
-                 "since; two builds for one peer ordered by happens-before (return before call) must not leave in the opposite order."),
+                 "since; two builds for one peer ordered by happens-before (return before call) must not leave in the opposite order. "
+                 "Stage scripted: the same monitors over histories with a held send, several pending messages, a failed message whose requests are scrubbed from the pending ones, and shutdown drains."),
      level_note="Liveness is checked at quiescent points only (the overlap between removal from the table and Shutdown() is legitimate for liveness); re-ordering across that overlap is a recorded known finding.",
      rule=("One evaluation = one concurrent scenario with 0-5 connection flaps. Non-trivial = executed to quiescence; distinct by scenario. "
            "counters.queues_created / wire_messages describe what was observed."),
-     min_nontrivial=dict(quick=400, thorough=8000),
-     min_counters=dict(queues_created=dict(quick=1000, thorough=20000)),
+     min_nontrivial=dict(quick=800, thorough=16000),
+     min_counters=dict(queues_created=dict(quick=1000, thorough=20000), scripted_histories=dict(quick=300, thorough=6000)),
      assumptions=_mq_assume)
 
 
